@@ -80,6 +80,14 @@ def make_call(L, kind, alias, aw, bw):
     return ores, args, objs
 
 
+def out_words(ores, n):
+    ws = read_words(ores, n)
+    for i, w in enumerate(ws):
+        if not isinstance(w, LV):
+            raise MemViolation("ptr-as-data", "result word %d holds %r, not a data word" % (i, w))
+    return ws
+
+
 def concrete(prog, kind, alias, a, b, probe=None):
     """concrete mode of the interpreter: (result, returned word or None)"""
     na, nb, nres, _, has_ret = KINDS[kind]
@@ -90,7 +98,7 @@ def concrete(prog, kind, alias, a, b, probe=None):
     x0 = X.run(PFX + kind, args, objs)
     if L.queries or X.queries or len(L.names):
         raise ExecError("internal", "concrete mode consulted the solver")
-    out = read_words(ores, nres)
+    out = out_words(ores, nres)
     if probe is not None:
         probe.append(X)
     if has_ret and not isinstance(x0, LV):
@@ -226,7 +234,7 @@ def a64_simple(prog, kind, alias, timeout_ms=60000):
         npaths += 1
         if not isinstance(x0, LV):
             raise Violation(key + ":ret", "%s%s leaves no integer return value in x0 (%r)" % (PFX, kind, x0), {"backend": "aarch64", "routine": PFX + kind})
-        O = L.z(lin_sum(L, read_words(ores, 6)))
+        O = L.z(lin_sum(L, out_words(ores, 6)))
         vc = z3.Implies(z3.And(*pc) if pc else z3.BoolVal(True), simple_spec(kind, zA, zB, O, L.z(x0)))
         def model():
             env = L.model_for(z3.Not(vc)) or {}
@@ -262,7 +270,7 @@ def a64_multiply(prog, kind, alias, timeout_ms=60000):
     X.run(PFX + kind, args, objs)
     key, detail = "a64:%s:alias=%d" % (kind, alias), "%s%s: result is not sum a_i*b_j*2^(64(i+j))" % (PFX, kind)
     precheck(X, prog, kind, alias, key, detail)
-    ident = L.eq(lin_sum(L, read_words(ores, 12)), _product_form(L, av, bv))
+    ident = L.eq(lin_sum(L, out_words(ores, 12)), _product_form(L, av, bv))
     settle(L.prove(ident, "product identity"), prog, kind, alias, key, detail + _lost(X), lambda: _product_model(L, ident, bv is av))
     witness(L, _inputs_env(av, bv, R384 - 1, R384 - 2), "only")
     return {"queries": L.queries + X.queries + 1, "solver_s": L.solver_time, "paths": 1, "functions": [PFX + kind],
@@ -279,6 +287,20 @@ def product_bound_lemma():
     s.set("timeout", 20000)
     s.add(a >= 0, b >= 0, a <= Q - 1, b <= Q - 1, a * b > (Q - 1) * (Q - 1))
     return s.check() == z3.unsat
+
+
+def fused_preimage(T):
+    """a, b < p whose fused product reaches the unreduced value T at the first compare (possible for T < p(1+p/2^384)): any U in [0,2^384)
+    with N = T*2^384 - U*p >= 0 is the Montgomery quotient of N, so pick a and solve a | N for U.  Used only to turn a counter-model of the
+    final-subtraction VC into replayable inputs."""
+    for a in (Q - 1, Q - 2, Q - 3, (Q - 1) // 2 * 2 - 5):
+        U = T * R384 * pow(Q, -1, a) % a
+        while U < R384:
+            N = T * R384 - U * Q
+            if 0 <= N and N // a < Q:
+                return [(a, N // a)]
+            U += a
+    return []
 
 
 def _definition(L1, L2, defs, t):
@@ -332,7 +354,7 @@ def a64_montgomery(prog, kind, alias=0, timeout_ms=60000):
             X_.L.solver.add(X_.L.z(handed["after"]) <= (Q - 1) * (Q - 1))
         X.on_cut = on_cut
 
-    paths = [(pc, read_words(ores, 6)) for pc, _ in X.explore(sym, args, objs)]
+    paths = [(pc, out_words(ores, 6)) for pc, _ in X.explore(sym, args, objs)]
     if [c["why"] for c in X.cuts] != (["first multiplication by the constant %#x" % QINV64] if fused else []) + ["first compare"]:
         confirm(prog, kind, alias, key + ":shape", "%s: expected cut points (first multiplication by inv, first compare) not reached" % sym, [])
     precheck(X, prog, kind, alias, key + ":identity", "%s: wrong result" % sym)
@@ -369,7 +391,7 @@ def a64_montgomery(prog, kind, alias=0, timeout_ms=60000):
         if not ok:
             tval = Ls.evaluate(lin_sum(Ls, sigma), Ls.model_for(z3.Not(vc)) or {n: 0 for n in Ls.names}) if ok is False else 0
             settle(ok, prog, kind, alias, key + ":final-subtract", "%s: final conditional subtraction is wrong for the unreduced value T=%#x" % (sym, tval),
-                   lambda: [] if fused else [(tval * R384 if tval < Q else tval * R384 - (R384 - 1) * Q, 0)])
+                   lambda: (fused_preimage(tval) if bv is not av else []) if fused else [(tval * R384 if tval < Q else tval * R384 - (R384 - 1) * Q, 0)])
     # vacuity guard: every context's constraint set (with the assumptions and proved lemmas added to it) holds on a concrete execution
     env = witness(L, _inputs_env(av, bv, a0, b0) if fused else _inputs_env(av, av, (Q - 1) * R384 + 12345, 0), "first")
     for i, c in enumerate(X.cuts):
